@@ -1,5 +1,6 @@
-"""translator piece for C15: Telnet protocol constants, reply limits, and -- read off the AST of both transports -- the reply
-table of `_handle_control_chars_response`, whether a completed command is counted, and the comparison that ends negotiation mode"""
+"""translator piece for C15: Telnet protocol constants, reply limits, the reply table of `_handle_control_chars_response` and whether a
+completed command is counted -- both MEASURED on live transport objects (every verb x every option) and cross-checked against the AST
+where the source has the familiar if/elif shape -- and, from the AST, the comparison that ends negotiation mode"""
 import ast
 from translate import HEADER, REPO, TranslateError, _module_consts, _self_attr_const
 
@@ -91,7 +92,12 @@ def _reply_rows(rel, cname, consts):
                 counts = True
         if isinstance(s, ast.AugAssign) and ast.unparse(s.target) == "self._control_char_sent_counter":
             counts = True
-    # the comparison(s) that keep the transport in negotiation mode
+    return rows, counts, _limit_cmp(rel, cname)
+
+
+def _limit_cmp(rel, cname):
+    """the comparison(s) that keep the transport in negotiation mode"""
+    cls = _cls(rel, cname)
     cmps = set()
     for n in ast.walk(cls):
         if isinstance(n, ast.If) and isinstance(n.test, ast.Compare) and ast.unparse(n.test.left) == "self._control_char_sent_counter" \
@@ -100,7 +106,92 @@ def _reply_rows(rel, cname, consts):
             cmps.add(type(n.test.ops[0]).__name__)
     if len(cmps) != 1:
         raise TranslateError(f"{rel}: negotiation-mode guard `counter <op> limit` not found or not uniform: {sorted(cmps)}")
-    return rows, counts, cmps.pop()
+    return cmps.pop()
+
+
+def _measured_rows(stack, c):
+    """the reply behaviour of `_handle_control_chars_response` MEASURED on a live transport object over a recording socket/writer: every
+    command verb x every option byte.  Returns (rows in first-match order, whether a completed command is counted).  Independent of how
+    the method is written; anything the table format cannot express (a reply that is not IAC+verb+option, replies for some options of a
+    verb only) raises TranslateError."""
+    from vlib.common import use_repo
+    use_repo()
+    from scrapli.transport.base import BaseTransportArgs
+    targs = BaseTransportArgs(transport_options={}, host="h", port=23, timeout_socket=1, timeout_transport=0, logging_uid="")
+    sent = []
+
+    class _Raw:
+        def send(self, b):
+            sent.append(bytes(b))
+            return len(b)
+
+        sendall = send
+
+        def settimeout(self, t):
+            pass
+
+        def gettimeout(self):
+            return 1
+
+    class _Sock:
+        sock = _Raw()
+
+        def isalive(self):
+            return True
+
+        def __bool__(self):
+            return True
+
+    class _Writer:
+        def write(self, b):
+            sent.append(bytes(b))
+
+    if stack == "sync":
+        from scrapli.transport.plugins.telnet.transport import PluginTransportArgs, TelnetTransport
+        t = TelnetTransport(targs, PluginTransportArgs())
+        t.socket = _Sock()
+    else:
+        from scrapli.transport.plugins.asynctelnet.transport import AsynctelnetTransport, PluginTransportArgs
+        t = AsynctelnetTransport(targs, PluginTransportArgs())
+        t.stdin = _Writer()
+    by_name = {c[n][0]: n for n in ("DO", "DONT", "WILL", "WONT")}
+    special_names = {c["SUPPRESS_GO_AHEAD"][0]: "SUPPRESS_GO_AHEAD"}
+    rows, counted = [], set()
+    for cmd in ("DO", "DONT", "WILL", "WONT"):
+        answers = {}
+        for opt in range(256):
+            del sent[:]
+            before = t._control_char_sent_counter
+            try:
+                left = t._handle_control_chars_response(control_buf=c["IAC"] + c[cmd], c=bytes([opt]))
+            except Exception as exc:     # noqa: BLE001
+                raise TranslateError(f"{stack} telnet: _handle_control_chars_response(IAC {cmd}, {opt}) raised {exc!r}")
+            if left != b"":
+                raise TranslateError(f"{stack} telnet: a completed command IAC {cmd} {opt} leaves control_buf {left!r}")
+            counted.add(t._control_char_sent_counter - before)
+            t._control_char_sent_counter = 0
+            out = b"".join(sent)
+            if out == b"":
+                answers[opt] = None
+            elif len(out) == 3 and out[:1] == c["IAC"] and out[2] == opt and out[1] in by_name:
+                answers[opt] = by_name[out[1]]
+            else:
+                raise TranslateError(f"{stack} telnet: the reply to IAC {cmd} {opt} is not IAC <verb> <option>: {out!r}")
+        vals = list(answers.values())
+        if all(v is None for v in vals):
+            continue
+        if any(v is None for v in vals):
+            raise TranslateError(f"{stack} telnet: {cmd} is answered for some options only")
+        default = max(set(vals), key=vals.count)
+        for opt, v in answers.items():
+            if v != default:
+                if opt not in special_names:
+                    raise TranslateError(f"{stack} telnet: {cmd} {opt} is special-cased ({v}) but the option has no name in telnet_common")
+                rows.append((cmd, special_names[opt], v))
+        rows.append((cmd, None, default))
+    if counted - {0, 1} or len(counted) != 1:
+        raise TranslateError(f"{stack} telnet: a completed command changes the counter by {sorted(counted)}")
+    return rows, counted == {1}
 
 
 def generate():
@@ -119,7 +210,16 @@ def generate():
     body += ("/-- the if/elif reply chain of `_handle_control_chars_response`, in source order: (command verb, the one option it is\n"
              "    special-cased for | none = any option, verb of the answer) -/\n")
     for stack in ("sync", "async"):
-        rows, counts, cmp_ = _reply_rows(*FILES[stack], set(names))
+        rows, counts = _measured_rows(stack, c)
+        try:
+            # the same facts read off the AST: a cross-check where the source has the familiar shape, the comparison of the negotiation guard
+            arows, acounts, cmp_ = _reply_rows(*FILES[stack], set(names))
+            if (arows, acounts) != (rows, counts):
+                raise TranslateError(f"{stack} telnet: the reply table read off the AST {arows}/{acounts} differs from the measured one {rows}/{counts}")
+        except TranslateError as exc:
+            if "differs from the measured" in str(exc):
+                raise
+            cmp_ = _limit_cmp(*FILES[stack])
         lean_rows = ", ".join(f"({a}, {'some ' + s if s else 'none'}, {v})" for a, s, v in rows)
         body += f"def {stack}ReplyTable : List (UInt8 × Option UInt8 × UInt8) := [{lean_rows}]\n"
         body += f"/-- a completed command increments `_control_char_sent_counter` in this transport -/\ndef {stack}Counts : Bool := {'true' if counts else 'false'}\n"
